@@ -107,6 +107,18 @@ CHECKS = {
         note="Zone intervals are taken from the zone API (validated by C04/C06); 16 zones per run.",
         technique="TLA+ value laws checked by TLC + TLC trace validation of recorded operations",
     ),
+    "C12": dict(
+        category="model_checking",
+        text=("ValueLaws.tla gives each value an abstract key, an ordering key and a comparability group; TLC checks that the "
+              "lexicographic comparison is a total order consistent with key equality; for 17 value types, triples of values from small "
+              "parameter pools (equal-but-distinct objects, all calendars) are compared with every operator and TLC checks reflexivity, "
+              "symmetry, transitivity, equality iff documented components equal, hash/set consistency, agreement of <,<=,>,>=, "
+              "compare_to, min, max with one order, cross-calendar and unrelated-type refusal; immutability probes call every public "
+              "zero-argument / plus_* / with_* method and operator and compare the projection before and after."),
+        design_ref="DESIGN.md section 5 C12",
+        note="Keys are projected by the driver from public accessors (calendar ordinal, day number, nanoseconds...); assigning to existing public properties must fail, adding unrelated new attributes is not considered mutation.",
+        technique="TLA+ equality/order laws checked by TLC + TLC trace validation of relation tables over value triples",
+    ),
     "C14": dict(
         category="model_checking",
         text=("NzdCodec.tla specifies every documented encoding (varint, zig-zag, 4-way milliseconds with its canonical choice, "
